@@ -81,6 +81,43 @@ def rpartition(it, s, sep):
     return (SStr(head), SStr(mid), SStr(tail))
 
 
+def _structural_split(it, s, sep):
+    """split of a concatenation of string literals and opaque terms the contract declared free of `sep`
+    (it.sepfree[sep] = list of z3 terms): an exact python list with a concrete spine."""
+    free = getattr(it, "sepfree", {}).get(sep)
+    if free is None:
+        return None
+    t = z3.simplify(s.t)
+
+    def flat(x):
+        if x.decl().kind() == z3.Z3_OP_SEQ_CONCAT:
+            for i in range(x.num_args()):
+                yield from flat(x.arg(i))
+        else:
+            yield x
+    parts = list(flat(t))
+    pieces, cur = [], []
+    for p in parts:
+        if z3.is_string_value(p):
+            segs = p.as_string().split(sep)
+            cur.append(z3.StringVal(segs[0]))
+            for seg in segs[1:]:
+                pieces.append(cur)
+                cur = [z3.StringVal(seg)]
+        elif any(p.eq(f) for f in free):
+            cur.append(p)
+        else:
+            return None
+    pieces.append(cur)
+    out = []
+    for c in pieces:
+        c = [x for x in c if not (z3.is_string_value(x) and x.as_string() == "")] or [z3.StringVal("")]
+        term = c[0] if len(c) == 1 else z3.Concat(*c)
+        term = z3.simplify(term)
+        out.append(term.as_string() if z3.is_string_value(term) else SStr(term))
+    return out
+
+
 def split(it, s, sep, maxsplit):
     """s.split(sep[, maxsplit]) with a concrete non-empty separator."""
     h = getattr(it, "split_hook", None)
@@ -103,6 +140,9 @@ def split(it, s, sep, maxsplit):
             rest = SStr(z3.SubString(rest.t, idx + len(sep), z3.Length(rest.t)))
         parts.append(rest)
         return parts
+    st = _structural_split(it, s, sep)
+    if st is not None and (not isinstance(mc, int) or mc < 0):
+        return st
     f = theory.ufun("str_split", z3.StringSort(), z3.StringSort(), STRSEQ)
     r = SSeq(f(s.t, S(sep)), KSeq(KStr, "list"))
     jn = theory.ufun("str_join", z3.StringSort(), STRSEQ, z3.StringSort())
